@@ -177,11 +177,13 @@ def r2_octave(ctx):
         at = f'{exp.module.relpath}:{sp.path.end_node.lineno}'
         cond_f = G._formula(F.fold(ctx, F._conj_node(sp), exp)) if sp.conds else ('const', True)
         thr = f'{pp}.octave < {C4e}'
-        ats = G.atoms_of(cond_f)
-        if ats != [thr]:
+        # whether the pitch has accidentals may select how they are written (decided below), nothing else may
+        ne_atoms = [a for a in G.atoms_of(cond_f) if a.startswith('nonempty(') and f'{pp}.name' in a]
+        ats = [a for a in G.atoms_of(cond_f) if a not in ne_atoms]
+        if ats != [thr] or len(ne_atoms) > 1 or not F.forced(cond_f, thr, True) and not F.forced(cond_f, thr, False):
             ctx.violation('R2', at, exp.qualname, 'exporter-threshold', f'case split is `{G.show(cond_f)}`, expected octave >= C4 ({C4e})')
             continue
-        high = G.evaluate(cond_f, {thr: False})
+        high = F.forced(cond_f, thr, False)
         parts = _concat_parts(val)
         if not parts or parts[0][0] != 'rep':
             ctx.violation('R2', at, exp.qualname, 'exporter-shape', f'returns `{src(val)[:90]}`, expected letter * count + accidentals')
@@ -209,7 +211,7 @@ def r2_octave(ctx):
                       f'octave < C4: {case} case x ({a.key()}), expected upper x ({C3e + 1} - octave)')
         # accidentals part
         rest = parts[1:]
-        okacc = len(rest) == 1 and rest[0][0] == 'expr' and _is_accidental_output(rest[0][1], pp)
+        okacc = len(rest) == 1 and rest[0][0] == 'expr' and _is_accidental_output(rest[0][1], pp, cond_f, ne_atoms)
         ctx.check(okacc, 'R3', at, exp.qualname, 'exporter-accidentals-appended',
                   'the accidentals (mapped + -> #, - -> -) follow the letters',
                   f'after the letters comes `{" + ".join(src(x[1])[:60] for x in rest)}`')
@@ -244,9 +246,25 @@ def _concat_parts(node):
     return parts
 
 
-def _is_accidental_output(node, pp):
-    """accidentals, or len(acc) * acc[0] if len(acc) > 0 else '' with acc = charmap(pitch.name)"""
+def _is_accidental_output(node, pp, cond=None, ne_atoms=()):
+    """accidentals, or len(acc) * acc[0] if len(acc) > 0 else '' with acc = charmap(pitch.name) (the conditional may be a
+    path condition: `nonempty(acc)` forced on the path)"""
     acc = node
+    if cond is not None and ne_atoms:
+        inner = ast.parse(ne_atoms[0][len('nonempty('):-1], mode='eval').body
+        cm0 = _char_map(inner)
+        if cm0 is None or src(cm0[0]) != f'{pp}.name' or cm0[1] != {'+': '#', '-': '-'}:
+            return False
+        if F.forced(cond, ne_atoms[0], False):
+            return isinstance(node, ast.Constant) and node.value == ''
+        if not F.forced(cond, ne_atoms[0], True):
+            return False
+        if isinstance(node, ast.BinOp) and isinstance(node.op, ast.Mult):
+            l, r = (node.left, node.right) if isinstance(node.left, ast.Call) else (node.right, node.left)
+            if isinstance(l, ast.Call) and F.is_name(l.func, 'len') and isinstance(r, ast.Subscript) and src(r.slice) == '0' \
+                    and src(l.args[0]) == src(r.value) == src(inner):
+                return True
+            return False
     if isinstance(node, ast.IfExp):
         if not (isinstance(node.orelse, ast.Constant) and node.orelse.value == ''):
             return False
